@@ -1127,3 +1127,20 @@ package mail
 //@ at mail.msgWriter.writeHeader strings.Builder.String#1 before assert[C06,C18:words-rejoin-to-the-value] joined(words, " ") == fullValueStr
 //@ at mail.msgWriter.addFiles mail.msgWriter.writeString#* before assert[C18:only-line-breaks-written-directly] arg1 == "\r\n"
 //@ at mail.msgWriter.writePart mail.msgWriter.writeString#* before assert[C18:only-line-breaks-written-directly] arg1 == "\r\n"
+
+// C20 (continued): the enhanced status code is exposed if and only if the extension was advertised and the reply
+// BEGAN with one. escprefix(s): s is "NNN" + blank or hyphen + class.subject.detail (class 2, 4 or 5; RFC 2034 / 3463)
+// ending at a word boundary; esctok(s): that token. That the pattern below means exactly this is an assumption about
+// regexp (stated as the contract of the one FindStringSubmatch call); the assertion ties it to the pattern text.
+// A bounded test stands in for the regexp semantics in the thorough tier (witness/c20_esc_test.go).
+//@ ufn escprefix(s string) bool
+//@ ufn esctok(s string) string
+//@ at mail.enhancedStatusCode regexp.Compile#1 before assert[C20:esc-pattern-anchored] arg0 == `^\d{3}[ -]([245]\.\d{1,3}\.\d{1,3})\b`
+//@ assume func mail.enhancedStatusCode@regexp.Compile#1 (expr) (re, err)
+//@   ensures[C20:esc-pattern] err == nil && re != nil
+//@ assume func mail.enhancedStatusCode@regexp.Regexp.FindStringSubmatch#1 (re, s) (m)
+//@   ensures[C20:esc-pattern] (m != nil) == escprefix(s)
+//@   ensures[C20:esc-pattern] m != nil ==> len(m) == 2 && m[1] == esctok(s)
+//@ fn d0(e ref) int = errtext(rooterr(e))[0]
+//@ func mail.enhancedStatusCode (err, supported) (result)
+//@   ensures[C20:esc-iff-the-reply-began-with-one] (err != nil ==> len(errtext(rooterr(err))) >= 1) ==> result == ((err != nil && supported && (d0(err) == 50 || d0(err) == 52 || d0(err) == 53) && escprefix(errtext(rooterr(err)))) ? esctok(errtext(rooterr(err))) : "")
